@@ -98,6 +98,11 @@ def run_property(pid, tier, jobs=None, only=None):
                  'nontrivial_paths': res.get('nontrivial_paths', 0), 'tags': res.get('tags', {}),
                  'queries': res.get('queries', 0), 'solver_s': res.get('solver_s', 0.0),
                  'realizations': res.get('realizations', 0), 'wall_s': res.get('wall_s', 0), 'cpu_s': res.get('cpu_s', 0)}
+        if res.get('task_faults'):
+            entry['task_faults'] = res['task_faults']
+            entry['task_fault_sample'] = res.get('task_fault_sample')
+            if kind != 'twin':
+                notes.append(f'{res["task_faults"]} task(s) ended with a programming error in {label}: {res.get("task_fault_sample")}')
         if kind == 'twin':
             # vacuity twin: the negated oracle at the witnessed branch MUST be refuted
             entry['expected'] = 'counterexample'
